@@ -375,7 +375,7 @@ TABLE = {
                 bound={"quick": "all histories of depth <= 3 (64 000)", "thorough": "all histories of depth <= 4 (2 560 000)"},
                 assumptions=["eksblowfish reference validated by reproducing 10 libxcrypt bcrypt hashes and OpenSSL Blowfish (refcheck)"]),
     "C15": dict(level="model_checking", cfgs=std_cfgs, post=post_c15, engine="seqmc (stateright) + loommc (loom)",
-                technique="explicit-state BFS (stateright) over multi-instance call histories on the real code, plus loom DPOR exploration of every interleaving of the real aes detection-cache code (unbounded for 2 and 3 threads)",
+                technique="explicit-state BFS (stateright) over multi-instance call histories on the real code; loom DPOR exploration of every interleaving of the real aes detection-cache code (unbounded, 2 and 3 threads); exhaustive per-type check that calls write neither the instance nor static storage (snapshots + write-protected run)",
                 rule="histories: states = operation histories over a pool of <=3 instances with the menu {construct k0|k1(|k2), clone, convert, drop, encrypt/decrypt block b0|b1, batch of 22} for every cipher family; every call result is compared with the reference "
                      "value for (key, input) and survivors are re-probed at the end. schedules: loom explores all interleavings (and all values a Relaxed load may return) of 2- and 3-thread harnesses over the real aes::autodetect / aes::hazmat detection caches, "
                      "for detection answer present and absent, asserting every thread's output against FIPS-197.",
